@@ -3,6 +3,7 @@
 package world
 
 import (
+	"fmt"
 	"bufio"
 	"errors"
 	"io"
@@ -53,6 +54,10 @@ func NewConn() *Conn { return &Conn{H: http.Header{}, FailAfter: -1} }
 func (c *Conn) Header() http.Header { return c.H }
 
 func (c *Conn) WriteHeader(code int) {
+	if code < 100 || code > 999 {
+		// net/http refuses such codes the same way (checkWriteHeaderCode): nothing is sent
+		panic(fmt.Sprintf("invalid WriteHeader code %v", code))
+	}
 	if code >= 100 && code <= 199 && code != 101 {
 		c.Events = append(c.Events, ConnEvent{Kind: "info", Code: code})
 		return
